@@ -1017,6 +1017,17 @@ static Plan gen_C14(uint64_t seed, Rng &r, uint64_t index) {
         p.ops.push_back(mk(OP_A_ADV, 0, {r.range(1000, 3000)})); p.ops.push_back(mk(OP_A_TICK, 0, {}));
         return p;
     }
+    if (r.chance(0.15)) { // the port's log calls take time: the clock moves while a step runs, and the input still counts from the second read on entry
+        p.call_us = (uint32_t)r.pickl({100, 500, 1000, 2000, 3000, 6000});
+        if (r.chance(0.7)) p.t0 = p.t0 / 1000 * 1000 + (uint64_t)r.range(990, 999);
+        if (r.chance(0.6)) { // a Discover (and perhaps an Emit) handled across a second boundary, then silence of about that state's timeout, then an input
+            p.ops.push_back(mk(OP_A_MAP, 0, {0}));
+            bool em = r.chance(0.4);
+            if (em) { p.ops.push_back(mk(OP_A_ADV, 0, {1000 - (int64_t)r.range(1, 9)})); p.ops.push_back(mk(OP_A_MAP, 0, {2})); }
+            p.ops.push_back(mk(OP_A_ADV, 0, {1000 * ((em ? 30 : 5) + r.range(-1, 1))}));
+            p.ops.push_back(mk(OP_A_MAP, 0, {r.pickl({0, 2, 3, 6, 7, 8, 10, -2, -3})}));
+        }
+    }
     int nops = (int)r.range(5, 120);
     for (int i = 0; i < nops; i++) {
         int x = (int)r.below(20);
